@@ -203,6 +203,8 @@ class _Spellings(ast.NodeTransformer):
     """one spelling for a few library idioms:
          range(0, n) / range(a, b, 1)      ->  range(n) / range(a, b)
          x.fill(v)   (statement, x a name) ->  x[...] = v            (ndarray.fill; lists have no fill)
+         x: T = v                          ->  x = v
+         yield from X   (statement)        ->  for _y in X: yield _y
     """
     def __init__(self):
         self.n = 0
@@ -220,9 +222,32 @@ class _Spellings(ast.NodeTransformer):
                 self.n += 1
         return n
 
+    def visit_AnnAssign(self, n):
+        # x: T = v  is  x = v  (the annotation is not evaluated into anything a rule looks at)
+        self.generic_visit(n)
+        if n.value is None:
+            return n
+        new = ast.Assign(targets=[n.target], value=n.value, type_comment=None)
+        ast.copy_location(new, n)
+        self.n += 1
+        return new
+
     def visit_Expr(self, n):
         self.generic_visit(n)
         c = n.value
+        if isinstance(c, ast.YieldFrom):
+            # yield from X (as a statement: the result of the delegation is not used)  ->  for _y in X: yield _y
+            # (the same items reach the consumer in the same order; nothing in the repository sends into a generator)
+            nm = '_yf%d' % getattr(n, 'lineno', 0)
+            new = ast.For(target=ast.Name(id=nm, ctx=ast.Store()), iter=c.value,
+                          body=[ast.Expr(value=ast.Yield(value=ast.Name(id=nm, ctx=ast.Load())))], orelse=[], type_comment=None)
+            ast.copy_location(new, n)
+            for x in ast.walk(new):
+                if isinstance(x, (ast.expr, ast.stmt)) and not hasattr(x, 'lineno'):
+                    ast.copy_location(x, n)
+            ast.fix_missing_locations(new)
+            self.n += 1
+            return new
         if isinstance(c, ast.Call) and isinstance(c.func, ast.Attribute) and c.func.attr == 'fill' and \
                 isinstance(c.func.value, ast.Name) and len(c.args) == 1 and not c.keywords:
             new = ast.Assign(targets=[ast.Subscript(value=ast.Name(id=c.func.value.id, ctx=ast.Load()),
